@@ -115,6 +115,8 @@ fn pass0_internal(
     macroses: &HashMap<String, Vec<(CodePoint, String)>>,
 ) -> Result<(), Error> {
     for (line, item) in segment.items.iter() {
+        #[cfg(feature = "verif")]
+        crate::verif::step();
         match item {
             Item::Instruction(name, ops) => match name {
                 Operation::Custom(macro_name) => {
@@ -174,6 +176,8 @@ fn macro_expand(
         let macro_body = if !ops.is_empty() {
             let mut processed = vec![];
             for (cp, raw_line) in macro_body {
+                #[cfg(feature = "verif")]
+                crate::verif::step();
                 let mut raw_line = raw_line.clone();
                 let string_rep = ops.iter().map(|x| x.to_string());
                 for (num, replacer) in string_rep.enumerate() {
